@@ -59,6 +59,7 @@ type ConnObs struct {
 	Dialed      bool
 	Key         *world.Key
 	Completed   bool
+	Refused     bool // the dial itself was refused (listener already closed)
 }
 
 type Obs struct {
@@ -134,7 +135,8 @@ func Build(s Spec, o *Obs, newMetrics func() service.ServiceMetrics) func() {
 			seed := uint64(100 + i)
 			var wire []byte
 			finish := func(cl *world.Client) {
-				co.Sent = cl.C.BytesWritten
+				co.Sent = cl.Sent()
+				co.Refused = cl.Refused()
 				co.ClientGot = cl.Got
 				co.Plain, _ = world.DecodeStream(key, cl.Got)
 			}
@@ -145,9 +147,9 @@ func Build(s Spec, o *Obs, newMetrics func() service.ServiceMetrics) func() {
 				cl := world.Dial(from)
 				rd := vrt.Spawn("reader", func() { cl.ReadAll() })
 				cl.Send(wire, 0)
-				cl.C.CloseWrite()
+				cl.CloseWrite()
 				vrt.Join(rd)
-				cl.C.Close()
+				cl.Close()
 				finish(cl)
 				if i == 0 {
 					recordedServer = cl.Got
@@ -159,9 +161,9 @@ func Build(s Spec, o *Obs, newMetrics func() service.ServiceMetrics) func() {
 				cl := world.Dial(from)
 				cl.Send(wire, 0)
 				vrt.Sleep(time.Second)
-				cl.C.CloseWrite()
+				cl.CloseWrite()
 				cl.ReadAll()
-				cl.C.Close()
+				cl.Close()
 				finish(cl)
 			case "replay-client":
 				co.Want = "ERR_REPLAY_CLIENT"
@@ -170,9 +172,9 @@ func Build(s Spec, o *Obs, newMetrics func() service.ServiceMetrics) func() {
 				cl := world.Dial(from)
 				cl.Send(wire, 0)
 				vrt.Sleep(time.Second)
-				cl.C.CloseWrite()
+				cl.CloseWrite()
 				cl.ReadAll()
-				cl.C.Close()
+				cl.Close()
 				finish(cl)
 			case "replay-server":
 				co.Want = "ERR_REPLAY_SERVER"
@@ -180,9 +182,9 @@ func Build(s Spec, o *Obs, newMetrics func() service.ServiceMetrics) func() {
 				cl := world.Dial(from)
 				cl.Send(wire, 0)
 				vrt.Sleep(time.Second)
-				cl.C.CloseWrite()
+				cl.CloseWrite()
 				cl.ReadAll()
-				cl.C.Close()
+				cl.Close()
 				finish(cl)
 			case "bad-addr":
 				co.Want, co.WantAuth = "ERR_READ_ADDRESS", true
@@ -191,9 +193,9 @@ func Build(s Spec, o *Obs, newMetrics func() service.ServiceMetrics) func() {
 				cl := world.Dial(from)
 				cl.Send(wire, 0)
 				vrt.Sleep(time.Second)
-				cl.C.CloseWrite()
+				cl.CloseWrite()
 				cl.ReadAll()
-				cl.C.Close()
+				cl.Close()
 				finish(cl)
 			case "private":
 				dst := privateDsts[cs.Var%len(privateDsts)]
@@ -206,7 +208,7 @@ func Build(s Spec, o *Obs, newMetrics func() service.ServiceMetrics) func() {
 				cl := world.Dial(from)
 				cl.Send(wire, 0)
 				cl.ReadAll()
-				cl.C.Close()
+				cl.Close()
 				finish(cl)
 			case "refused":
 				co.Want, co.WantAuth = "ERR_CONNECT", true
@@ -214,7 +216,7 @@ func Build(s Spec, o *Obs, newMetrics func() service.ServiceMetrics) func() {
 				cl := world.Dial(from)
 				cl.Send(wire, 0)
 				cl.ReadAll()
-				cl.C.Close()
+				cl.Close()
 				finish(cl)
 			case "relay-client":
 				co.Want, co.WantAuth = "ERR_RELAY_CLIENT", true
@@ -225,9 +227,9 @@ func Build(s Spec, o *Obs, newMetrics func() service.ServiceMetrics) func() {
 				rd := vrt.Spawn("reader", func() { cl.ReadAll() })
 				cl.Send(wire, 0)
 				vrt.Sleep(time.Second)
-				cl.C.CloseWrite()
+				cl.CloseWrite()
 				vrt.Join(rd)
-				cl.C.Close()
+				cl.Close()
 				finish(cl)
 			case "relay-target":
 				co.Want, co.WantAuth = "ERR_RELAY_TARGET", true
@@ -239,9 +241,9 @@ func Build(s Spec, o *Obs, newMetrics func() service.ServiceMetrics) func() {
 				vrt.Sleep(time.Second)
 				cl.Send(more[len(wire):], 0) // arrives at the target, which closes without reading: RST
 				vrt.Sleep(time.Second)
-				cl.C.CloseWrite()
+				cl.CloseWrite()
 				vrt.Join(rd)
-				cl.C.Close()
+				cl.Close()
 				finish(cl)
 			case "raw":
 				// authenticated stream with hand-built chunks; the expectation is set by the caller's oracle
@@ -251,9 +253,9 @@ func Build(s Spec, o *Obs, newMetrics func() service.ServiceMetrics) func() {
 				rd := vrt.Spawn("reader", func() { cl.ReadAll() })
 				cl.Send(wire, 0)
 				vrt.Sleep(time.Second)
-				cl.C.CloseWrite()
+				cl.CloseWrite()
 				vrt.Join(rd)
-				cl.C.Close()
+				cl.Close()
 				finish(cl)
 			}
 			return co
